@@ -55,7 +55,13 @@ func (e *Exec) loadPath(v Value, path []PathElem) Value {
 			continue
 		}
 		a := v.(*ArrayV)
+		if !pe.Idx.IsConst() {
+			pe.Idx = e.uniq(pe.Idx)
+		}
 		if pe.Idx.IsConst() {
+			if int(pe.Idx.Val) >= a.N {
+				e.unsupported("index %d beyond array of %d (bounds check missing in the encoder)", pe.Idx.Val, a.N)
+			}
 			v = a.getConst(int(pe.Idx.Val))
 			continue
 		}
@@ -96,6 +102,10 @@ func (e *Exec) store(p *PtrV, val Value) {
 	}
 	if e.scope != nil {
 		e.scope.note(p.Obj)
+	}
+	if t, ok := val.(*sym.Term); ok && e.Sh.Cfg.UniqDepth > 0 && t.W >= 8 && (len(p.Path) == 0 || p.Path[len(p.Path)-1].Idx == nil) {
+		// scalar variables and struct fields (not array elements, which hold data)
+		val = e.uniq(t)
 	}
 	p.Obj.V = e.storeAt(p.Obj.V, p.Path, val, nil)
 }
@@ -153,6 +163,9 @@ func (e *Exec) storeAt(cur Value, path []PathElem, val Value, guard *sym.Term) V
 		return s
 	}
 	a := cur.(*ArrayV)
+	if !pe.Idx.IsConst() {
+		pe.Idx = e.uniq(pe.Idx)
+	}
 	if pe.Idx.IsConst() {
 		k := int(pe.Idx.Val)
 		if a.Sym != nil {
